@@ -42,6 +42,8 @@ type Flat struct {
 	Nodes []*GNode
 	Entry int
 	first map[*cfg.Block]int // entry node of each block
+	// WalkStop is the node at which the last WalkPath gave up (undecidable condition)
+	WalkStop int
 }
 
 func (p *Prog) mayReturn(pkg *packages.Package) func(*ast.CallExpr) bool {
